@@ -24,6 +24,10 @@ CHECKS = {
             'Kernel decided by z3 for all sizes: the real _load_trajectory runs with solver integers for the index, the number of trajectories at open time, the number added in the session and the per-file sizes of merged stores, on file records whose variables report the position they are read at; the position read must be the position add wrote (negative positions normalised against the current file length), and an index is loaded iff it is below the length. Histories: every sequence of L operations (add with varying reported sizes, read any index incl. one beyond the end, len, iterate, sync, close+reopen for append/read) with ample and tiny caches, file-backed and in-memory, runs on the real store over a netCDF4 model and is compared with a Python list (exhaustive bounded enumeration, operation codes being solver variables). Counterexamples and sample histories are replayed on the real netCDF4.',
             'netCDF4 replaced by vf/models/fakenc.py, trusted because the repository storage tests pass with it substituted (re-run in every check run) and because counterexamples replay on the real library; L = 4 (thorough 5) operations; cache_size_mb=0 outside',
             'proxy symbolic execution with solver integers (z3 LIA) + exhaustive bounded history exploration', 'DESIGN.md#c07'),
+    'C08': ('model_checking',
+            'The real index code (staleness flag set by add, _reindex, sorted (identifier, index) table searched by bisection, merged index with per-store offsets) runs with solver-integer flight identifiers stored in a netCDF4 model: sorted() and bisect fork on symbolic comparisons, so every insertion order of distinct identifiers is a path; on every path each added identifier returns exactly the trajectory added with it and an identifier never added returns nothing -- immediately after adds, after sync, after further adds, across append sessions, after reopening and in a merged store of two parts. Mixing identified and unidentified trajectories is refused in create and append sessions and the store stays consistent. Counterexamples replay on the real netCDF4 with the model\'s identifier values.',
+            'netCDF4 model validated by the repository storage tests; 3 (thorough 4) identifiers per history; concrete tagged payloads',
+            'proxy symbolic execution with solver-integer identifiers (z3 LIA) over a netCDF4 model', 'DESIGN.md#c08'),
     'C11': ('other',
             'Bounded symbolic verification over configurations: the 12 documented options are solver variables read through concretising forks, the real compute_emissions runs for every feasible option combination on symbolic data; every path must return (then switched-off species are proved absent/zero in trajectory and LTO parts) or raise a refusal naming the offending option value; any other exception is a counterexample configuration, replayed through the real Config.load + compute_emissions.',
             'same engine and stubs as C01; classification of an exception as a named refusal is by message text',
